@@ -8,28 +8,31 @@ package req
 //@   props C03
 
 //@ func parseFirstLine(h, buf) n, err
-//@   props C03
+//@   props C03, C01
 //@   requires h != nil
 //@   modifies h._all, mem
+//@   ensures h.disableNormalizing == old(h.disableNormalizing)
 //@   allocates
 //@   ensures err == nil ==> 0 <= n && n <= len(buf)
 //@   loop 0:
 //@     invariant sameArray(bNext, buf) && off(bNext) >= off(buf) && off(bNext) + len(bNext) == off(buf) + len(buf)
 
 //@ func parseHeaders(h, buf) n, err
-//@   props C03
+//@   props C03, C01
 //@   requires h != nil
 //@   modifies *
+//@   ensures h.disableNormalizing == old(h.disableNormalizing)
 //@   ghostset-at-entry parseArr = arr(buf)
 //@   ensures err == nil ==> 0 <= n && n <= len(buf)
 //@   loop 0:
-//@     invariant hsInv(s) && s.HLen + len(s.B) <= len(buf) && arr(s.B) == parseArr
+//@     invariant hsInv(s) && s.HLen + len(s.B) <= len(buf) && arr(s.B) == parseArr && h.disableNormalizing == old(h.disableNormalizing)
 
 // C02: the header scanner runs only after ReadRawHeaders found the block complete.
 //@ func parse(h, buf) n, err
-//@   props C03, C02
+//@   props C03, C02, C01
 //@   requires h != nil
 //@   modifies *
+//@   ensures h.disableNormalizing == old(h.disableNormalizing)
 //@   ghostset-at-entry hdrComplete = false
 //@   ghostset after ReadRawHeaders#0: hdrComplete = (result2 == nil)
 //@   assert @C02 before parseHeaders#0: hdrComplete
@@ -38,14 +41,18 @@ package req
 //@   ensures err == nil ==> 0 <= n && n <= len(buf)
 
 //@ func tryRead(h, r, n) err
-//@   props C03
+//@   props C03, C01
 //@   requires h != nil && r != nil
 //@   modifies *, r.pos, r.avail, r.failed
+//@   ensures h.disableNormalizing == old(h.disableNormalizing)
 
 //@ func ReadHeader(h, r) err
-//@   props C03
+//@   props C03, C01
 //@   requires h != nil && r != nil
 //@   modifies *, r.pos, r.avail, r.failed
+//@   ensures h.disableNormalizing == old(h.disableNormalizing)
+//@   loop 0:
+//@     invariant h.disableNormalizing == old(h.disableNormalizing)
 
 // ---- C11: a buffered request is the header block, then exactly the body whose length the header announces ----
 //@ ghost var rwHdr int
